@@ -1229,3 +1229,10 @@ PROPS["C06"]["claim"] = PROPS["C06"]["claim"] + " The table operations a column 
 UNIT_META["flush_all"]["functions"] = UNIT_META["flush_all"]["functions"] + ["column::HashColumn::refresh_metadata (fragment)", "column::HashColumn::complete_plan (fragment)"]
 PROPS["C14"]["verus_units"] = list(PROPS["C14"].get("verus_units", [])) + ["flush_all"]
 PROPS["C14"]["claim"] = PROPS["C14"]["claim"] + " Metadata fan-out, unbounded over the value tables of a hash column (Verus): refresh_metadata re-reads the header of every value table after replay, complete_plan lets every value table log its header once per commit."
+
+# ---------------------------------------------------------------- U85 (Verus: Log::replay_next)
+UNIT_META["log_queues"] = {"functions": ["log::Log::replay_next"],
+                           "assumes": ["the RwLocks around `reading`, the cleanup queue and the replay queue are plain cells and the function takes `&mut self` (listed rewrites); File / BufReader are stand-ins that carry the identity of the file; log::Reading is declared with them"]}
+for _p in ("C13", "C03"):
+    PROPS[_p]["verus_units"] = list(PROPS[_p].get("verus_units", [])) + ["log_queues"]
+    PROPS[_p]["claim"] = PROPS[_p]["claim"] + " Log::replay_next (Verus) hands the file just replayed to the cleanup queue under its own id (it is emptied only by the reclaim step, after the tables were flushed) and takes the next file to replay from the front of the replay queue, leaving the order of the rest as Log::open established it."
